@@ -5,6 +5,6 @@ CHECKS['C04'] = dict(
     text='Every sequence (depth 6 quick, 7 thorough) of announce/withdraw (bare prefix, and the full announce line with its attributes in the ungrouped variant)/watchdog/flush/clear operations interleaved with single-message '
          'transmitter steps is executed on a real OutgoingRIB through the real Protocol.new_update_generator; from every reached state the queue '
          'is drained and the table a reference BGP receiver builds from the emitted bytes must equal both cached_routes() and the table the '
-         'history intends. Exhaustive inside the bound, which is the right level for an ordering/atomicity property of a small state machine.',
+         'history intends. Exhaustive inside the bound, which is the right level for an ordering/atomicity property of a small state machine. Variant pathid: routes written with path-information on a session without ADD-PATH, the tables compared by the key the wire has (one open finding, signature *:pathid).',
     note='Trusted: vt/ref/wire.py decoder; the alphabet (2-3 prefixes x 2 attribute sets x 2 next hops x 2 path ids); operations enter at the OutgoingRIB calls the API handlers make.',
 )
